@@ -319,6 +319,8 @@ def run(chk):
     _pf, _ff = chk.rule_prefix, chk.rule_filter
     chk.rule_prefix, chk.rule_filter = "C01.", None
     fib.check_atomic_queue_geometry(chk, m, K, min_depth=1)
+    # the run queue is a chain through the fibres' link members: a write to one from scheduler code cuts the chain (C01 S11)
+    fib.check_link_ownership(chk, m, K)
     chk.rule_prefix, chk.rule_filter = _pf, _ff
     chk.rule_prefix = "C02."
     chk.rule_filter = lambda r: r.startswith("T1")
